@@ -7,7 +7,9 @@ All statements are for an arbitrary priority type `π` whose `<` (`plt`) is a st
 documented `heapq` contract (`HeapLib.Lawful`).
 -/
 import Asynkit.Lemmas.PQ
+import Asynkit.Lemmas.PosPQ
 import Asynkit.Model.PQStep
+import Asynkit.Model.PosPQStep
 
 namespace Asynkit.C17
 open Asynkit PQ
@@ -252,5 +254,186 @@ example : ∃ L, R (fun a b : Int => decide (a < b))
   have h2 : (run (sortedHeap _) (fun a b : Int => decide (a < b))
       [.add 1 10, .add 0 11, .add 0 12, .pop]).1.pq.length = 2 := by decide
   omega
+
+/-! ## `PosPriorityQueue` (boosting disabled: `priority_boost_factor = 0`)
+
+The reference state is again the list of live entries in arrival order; its **pop order**
+`order PV.lt L` is the list model of the property: positional (class-0) entries first, then the
+regular entries by priority, then arrival.  `PosPQ.objs L` is that order as a list of objects. -/
+
+section Pos
+open PosPQ
+variable {G : HeapLib (Entry PV)}
+
+/-- `PriorityValue.__lt__` is a strict weak order, so everything proved for `PriorityQueue` applies -/
+theorem pv_order : StrictWeak PV.lt := pv_strictWeak
+
+/-- positional entries come first in the pop order -/
+theorem positional_prefix (L : List (Entry PV)) :
+    (order PV.lt L).Pairwise (fun a b => b.pri.cls = 0 → a.pri.cls = 0) := by
+  refine (order_sorted pv_strictWeak L).imp ?_
+  intro a b hba hb
+  simp only [Entry.lt, Bool.or_eq_false_iff] at hba
+  have h := hba.1
+  simp only [PV.lt, hb] at h
+  by_cases ha : a.pri.cls = 0
+  · exact ha
+  · exfalso
+    have : (0 != a.pri.cls) = true := by simp; omega
+    simp [this] at h; omega
+
+/-- One step of the reference model of `PosPriorityQueue`. -/
+inductive PosSpecStep : List (Entry PV) → PosPQ.Op → PosPQ.Out → List (Entry PV) → Prop
+  /-- append: a regular entry with a fresh arrival stamp; it is popped behind every entry whose
+      (class, priority) is not larger (`order_append`) -/
+  | appendPri (L x p n ins) : (∀ e ∈ L, e.seq < n) →
+      PosSpecStep L (.appendPri x p) .unit (L ++ [⟨{ base := p, insertedAt := ins }, n, x⟩])
+  /-- insert: `list.insert(min(position, len), obj)` on the pop order; the entries in front of the
+      insertion point and the new one become the positional prefix, the rest (`L1`) is untouched -/
+  | insert (L p x es L1 N) : order PV.lt L = es ++ order PV.lt L1 → es.length = min p L.length →
+      L1.Sublist L → N.map (·.obj) = es.map (·.obj) ++ [x] → (∀ n ∈ N, n.pri.cls = 0) →
+      order PV.lt (L1 ++ N) = N ++ order PV.lt L1 →
+      objs (L1 ++ N) = (objs L).insertIdx (min p L.length) x →
+      PosSpecStep L (.insert p x) .unit (L1 ++ N)
+  | popEmpty : PosSpecStep [] .popleft .indexError []
+  /-- popleft: the head of the pop order -/
+  | popleft (L e) : e ∈ L → order PV.lt L = e :: order PV.lt (without L e.seq) →
+      PosSpecStep L .popleft (.obj e.obj) (without L e.seq)
+  | removeAbsent (L x) : (∀ e ∈ L, e.obj ≠ x) → PosSpecStep L (.remove x) .valueError L
+  | remove (L x e) : e ∈ L → e.obj = x → PosSpecStep L (.remove x) .unit (without L e.seq)
+  | findNone (L key rm) : (∀ e ∈ L, key e.obj = false) → PosSpecStep L (.find key rm) .none L
+  | find (L key e) : e ∈ L → key e.obj = true → PosSpecStep L (.find key false) (.obj e.obj) L
+  | findRemove (L key e) : e ∈ L → key e.obj = true →
+      PosSpecStep L (.find key true) (.obj e.obj) (without L e.seq)
+  | reschedNone (L key np) : (∀ e ∈ L, key e.obj = false) → PosSpecStep L (.reschedule key np) .none L
+  /-- rescheduling a positional entry changes nothing -/
+  | reschedPositional (L key np e) : e ∈ L → key e.obj = true → e.pri.cls = 0 →
+      PosSpecStep L (.reschedule key np) (.obj e.obj) L
+  /-- rescheduling a regular entry: unchanged when the priority is the same, otherwise new base
+      priority, boost dropped, arrival stamp kept -/
+  | reschedSame (L key np e) : e ∈ L → key e.obj = true → e.pri.cls ≠ 0 →
+      PosSpecStep L (.reschedule key np) (.obj e.obj) L
+  | resched (L key np e ins) : e ∈ L → key e.obj = true → e.pri.cls ≠ 0 →
+      PosSpecStep L (.reschedule key np) (.obj e.obj) (specResched L e.seq { base := np, insertedAt := ins })
+  /-- reschedule_all: regular entries get `gp obj` as base priority; stamps, classes and positional
+      entries are untouched — so positional and equal-priority entries keep their order -/
+  | rescheduleAll (L gp) : PosSpecStep L (.rescheduleAll gp) .unit (L.map (rebase gp))
+  /-- iteration yields the pop order and changes nothing -/
+  | iter (L) : PosSpecStep L .iter (.objs (objs L)) L
+  | clear (L) : PosSpecStep L .clear .unit []
+
+inductive PosSpecRun : List (Entry PV) → List PosPQ.Op → List PosPQ.Out → List (Entry PV) → Prop
+  | nil (L) : PosSpecRun L [] [] L
+  | cons {L op out L1 ops outs L2} : PosSpecStep L op out L1 → PosSpecRun L1 ops outs L2 →
+      PosSpecRun L (op :: ops) (out :: outs) L2
+
+/-- **single-step refinement** for `PosPriorityQueue` with boosting disabled -/
+theorem pos_step_refines (hl : G.Lawful (Entry.lt PV.lt)) (draw : Nat → Rat)
+    {s : PosPQ} {L : List (Entry PV)} (h : RP s L) (h0 : s.factor = 0) (op : PosPQ.Op) :
+    ∃ L', PosSpecStep L op (PosPQ.step G draw s op).2 L' ∧ RP (PosPQ.step G draw s op).1 L' ∧
+      (PosPQ.step G draw s op).1.factor = 0 := by
+  cases op with
+  | appendPri x p =>
+    have := h.appendPri hl h0 x p draw
+    exact ⟨_, .appendPri L x p s.q.seq s.nIns h.r.bound, this.1, this.2.2⟩
+  | insert p x =>
+    obtain ⟨es, L1, N, h1, h2, h3, h4, h5, h6, h7, h8, h9⟩ := h.insert hl h0 p x draw
+    exact ⟨_, .insert L p x es L1 N h1 h2 h3 h4 h5 h6 h8, h7, h9⟩
+  | popleft =>
+    rcases h.popleft hl draw with ⟨rfl, hn⟩ | ⟨e, s', hp, he, hord, hr, hf⟩
+    · exact ⟨[], by simp only [PosPQ.step, hn]; exact .popEmpty, by simpa only [PosPQ.step, hn] using h,
+        by simpa only [PosPQ.step, hn] using h0⟩
+    · exact ⟨_, by simp only [PosPQ.step, hp]; exact .popleft L e he hord,
+        by simpa only [PosPQ.step, hp] using hr, by simp only [PosPQ.step, hp]; rw [hf, h0]⟩
+  | remove x =>
+    have := h.remove hl x draw
+    cases hr : s.remove G x draw with
+    | none =>
+      rw [hr] at this
+      exact ⟨L, by simp only [PosPQ.step, hr]; exact .removeAbsent L x this,
+        by simpa only [PosPQ.step, hr] using h, by simpa only [PosPQ.step, hr] using h0⟩
+    | some s' =>
+      rw [hr] at this
+      obtain ⟨e, he, hx, hrp, hf⟩ := this
+      exact ⟨_, by simp only [PosPQ.step, hr]; exact .remove L x e he hx,
+        by simpa only [PosPQ.step, hr] using hrp, by simp only [PosPQ.step, hr]; rw [hf, h0]⟩
+  | find key rm =>
+    have := h.find hl key rm
+    cases hr : s.find G key rm with
+    | mk o s' =>
+      rw [hr] at this
+      cases o with
+      | none =>
+        obtain ⟨rfl, hk⟩ := this
+        exact ⟨L, by simp only [PosPQ.step, hr]; exact .findNone L key rm hk,
+          by simpa only [PosPQ.step, hr] using h, by simpa only [PosPQ.step, hr] using h0⟩
+      | some x =>
+        obtain ⟨e, he, hk, rfl, hrest⟩ := this
+        cases rm with
+        | false =>
+          simp only [Bool.false_eq_true, if_false] at hrest
+          subst hrest
+          exact ⟨L, by simp only [PosPQ.step, hr]; exact .find L key e he hk,
+            by simpa only [PosPQ.step, hr] using h, by simpa only [PosPQ.step, hr] using h0⟩
+        | true =>
+          simp only [if_true] at hrest
+          exact ⟨_, by simp only [PosPQ.step, hr]; exact .findRemove L key e he hk,
+            by simpa only [PosPQ.step, hr] using hrest.1, by simp only [PosPQ.step, hr]; rw [hrest.2, h0]⟩
+  | reschedule key np =>
+    have := h.reschedule hl key np
+    cases hr : s.reschedule G key np with
+    | mk o s' =>
+      rw [hr] at this
+      cases o with
+      | none =>
+        obtain ⟨rfl, hk⟩ := this
+        exact ⟨L, by simp only [PosPQ.step, hr]; exact .reschedNone L key np hk,
+          by simpa only [PosPQ.step, hr] using h, by simpa only [PosPQ.step, hr] using h0⟩
+      | some x =>
+        obtain ⟨e, he, hk, rfl, hf, hcase⟩ := this
+        rcases hcase with ⟨hc, rfl⟩ | ⟨hc, rfl | hrp⟩
+        · exact ⟨L, by simp only [PosPQ.step, hr]; exact .reschedPositional L key np e he hk hc,
+            by simpa only [PosPQ.step, hr] using h, by simpa only [PosPQ.step, hr] using h0⟩
+        · exact ⟨L, by simp only [PosPQ.step, hr]; exact .reschedSame L key np e he hk hc,
+            by simpa only [PosPQ.step, hr] using h, by simpa only [PosPQ.step, hr] using h0⟩
+        · exact ⟨_, by simp only [PosPQ.step, hr]; exact .resched L key np e s.nIns he hk hc,
+            by simpa only [PosPQ.step, hr] using hrp, by simp only [PosPQ.step, hr]; rw [hf, h0]⟩
+  | rescheduleAll gp =>
+    exact ⟨_, .rescheduleAll L gp, (h.rescheduleAll hl gp).1, by simpa [PosPQ.step, PosPQ.rescheduleAll] using h0⟩
+  | iter =>
+    have := h.iter
+    exact ⟨L, by simp only [PosPQ.step, this.2]; exact .iter L, by simpa only [PosPQ.step] using this.1,
+      by simpa [PosPQ.step, PosPQ.iter] using h0⟩
+  | clear => exact ⟨[], .clear L, RP.clear s, by simpa [PosPQ.step, PosPQ.clear] using h0⟩
+
+/-- **`pos_refines_list`**: every history of `PosPriorityQueue` operations (boosting disabled)
+    answers as the reference list model does, from any related pair of states; in particular
+    from the empty queue.  Nothing is lost, duplicated or reordered: the implementation's entries
+    are always a permutation of the reference list and its heap invariant holds (`RP`). -/
+theorem pos_refines_list (hl : G.Lawful (Entry.lt PV.lt)) (draw : Nat → Rat) (ops : List PosPQ.Op) :
+    ∀ {s : PosPQ} {L : List (Entry PV)}, RP s L → s.factor = 0 →
+      ∃ L', PosSpecRun L ops (PosPQ.runFrom G draw s ops).2 L' ∧ RP (PosPQ.runFrom G draw s ops).1 L' := by
+  induction ops with
+  | nil => intro s L h _; exact ⟨L, .nil L, h⟩
+  | cons op ops ih =>
+    intro s L h h0
+    obtain ⟨L1, hstep, hr1, hf1⟩ := pos_step_refines (G := G) hl draw h h0 op
+    obtain ⟨L2, hrun, hr2⟩ := ih hr1 hf1
+    exact ⟨L2, .cons hstep hrun, hr2⟩
+
+/-- `reschedule_all_stable`: the reference list after `reschedule_all` has the same arrival stamps,
+    objects and classes, position by position, and positional entries are untouched. -/
+theorem reschedule_all_stable (gp : Nat → Rat) (L : List (Entry PV)) :
+    ∀ e ∈ L, (rebase gp e).seq = e.seq ∧ (rebase gp e).obj = e.obj ∧
+      (rebase gp e).pri.cls = e.pri.cls ∧ (e.pri.cls = 0 → rebase gp e = e) := by
+  intro e _
+  unfold rebase
+  refine ⟨by split <;> rfl, by split <;> rfl, by split <;> simp, fun hc => by simp [hc]⟩
+
+/-- non-vacuity: the relation holds initially with boosting disabled -/
+example : RP ({ factor := 0 } : PosPQ) [] ∧ ({ factor := 0 } : PosPQ).factor = 0 :=
+  ⟨⟨PQ.R.empty, by simp⟩, rfl⟩
+
+end Pos
 
 end Asynkit.C17
